@@ -1389,6 +1389,17 @@ mut("C11", "glob-after-substitution", "R11-11|shell::do_expansion|after-substitu
     expand_glob(tokens);
 """))
 
+mut("C15", "script-status-from-first-result", "R15-1", "run_script returns the status of the first result",
+    (SC, """    let cr_list = run_lines(sh, &text_new, args, false);
+    if let Some(last) = cr_list.last() {""", """    let cr_list = run_lines(sh, &text_new, args, false);
+    if let Some(last) = cr_list.first() {"""))
+mut("C02", "status-of-first-pid", "R02-5", "wait_fg_job takes the first pid as the status-bearing one",
+    (J, "    let pid_last = pids.last().unwrap();", "    let pid_last = pids.first().unwrap();"))
+mut("C15", "exit-on-error-looks-at-first", "R15-3", "set -e tests the first result of the accumulated list",
+    (SC, """            if let Some(last) = cr_list.last() {
+                let status = last.status;""", """            if let Some(last) = cr_list.first() {
+                let status = last.status;"""))
+
 # ------------------------------------------------------------------ more refactors
 ref("history-params-vec", ["C18"], "bind the INSERT parameters through a params! style slice",
     (H, "    match conn.execute(&sql, [line.trim(), info.as_str()]) {",
